@@ -5,6 +5,7 @@
 const uint8_t * vg_crc_arg;
 uint32_t vg_crc_len;
 uint32_t vg_crc_ret;
+uint32_t vg_sw_ret;
 
 #ifdef VG_SSE4
 /* A-ISA: semantics of the SSE4.2 CRC32 instruction (Intel SDM): accumulate 1/4/8 little-endian bytes of CRC-32C */
@@ -41,3 +42,59 @@ void h_crc_hdr(void) {
     uint32_t r = jls_crc32c_hdr(hdr);
     VG_REACH(crc_hdr_returns);
 }
+
+#ifdef VG_SW
+void h_crc_sw_bytes(void) {
+    uint32_t length, a, c0;
+    __CPROVER_assume(a < 8 && length <= 7);
+    uint8_t * base = malloc((size_t) length + a);
+    __CPROVER_assume(base != NULL);
+    uint32_t r = crc32cSlicingBy8(c0, base + a, length);
+    VG_REACH(crc_sw_bytes_returns);
+    if (length == 7 && a == 1) { VG_REACH(crc_sw_bytes_head_and_tail); }
+}
+/* U-crc-sw-tab: every entry of the eight tables against the generator (table k, entry i = effect of byte i followed by k zero bytes) */
+void h_crc_sw_tab(void) {
+    uint8_t i;
+    uint32_t t0 = vg_spec_byte(0, i);
+    __CPROVER_assert(crc_tableil8_o32[i] == t0, "C18: table o32[i] == 8 bit-serial steps of i");
+    uint32_t c = crc_tableil8_o32[i];
+    c = crc_tableil8_o32[c & 0xff] ^ (c >> 8); __CPROVER_assert(crc_tableil8_o40[i] == c, "C18: table o40 recurrence");
+    c = crc_tableil8_o32[c & 0xff] ^ (c >> 8); __CPROVER_assert(crc_tableil8_o48[i] == c, "C18: table o48 recurrence");
+    c = crc_tableil8_o32[c & 0xff] ^ (c >> 8); __CPROVER_assert(crc_tableil8_o56[i] == c, "C18: table o56 recurrence");
+    c = crc_tableil8_o32[c & 0xff] ^ (c >> 8); __CPROVER_assert(crc_tableil8_o64[i] == c, "C18: table o64 recurrence");
+    c = crc_tableil8_o32[c & 0xff] ^ (c >> 8); __CPROVER_assert(crc_tableil8_o72[i] == c, "C18: table o72 recurrence");
+    c = crc_tableil8_o32[c & 0xff] ^ (c >> 8); __CPROVER_assert(crc_tableil8_o80[i] == c, "C18: table o80 recurrence");
+    c = crc_tableil8_o32[c & 0xff] ^ (c >> 8); __CPROVER_assert(crc_tableil8_o88[i] == c, "C18: table o88 recurrence");
+    VG_REACH(crc_sw_tab);
+}
+/* U-crc-sw-byte: the table byte step equals the bit-serial byte step for every state and byte (2^40 cases) */
+void h_crc_sw_byte(void) {
+    uint32_t c; uint8_t b;
+    __CPROVER_assert((crc_tableil8_o32[(c ^ b) & 0xff] ^ (c >> 8)) == vg_spec_byte(c, b), "C18: table-driven byte step == bit-serial byte step");
+    VG_REACH(crc_sw_byte);
+}
+/* U-crc-sw-slice: one 8-byte slicing iteration equals 8 bit-serial byte steps (via the real function on an aligned 8-byte buffer) */
+void h_crc_sw_slice(void) {
+    uint64_t w; uint32_t c0;
+    uint32_t r = crc32cSlicingBy8(c0, &w, 8);
+    const uint8_t * p = (const uint8_t *) &w;
+    uint32_t s = vg_spec_4(vg_spec_4(c0, p), p + 4);
+    __CPROVER_assert(r == s, "C18: one slicing-by-8 iteration == 8 bit-serial byte steps");
+    VG_REACH(crc_sw_slice);
+}
+/* U-crc-sw-short: the real jls_crc32c / jls_crc32c_hdr of the table build on short buffers (every length 0..VG_SW_LEN, 4 alignments) */
+#ifndef VG_SW_LEN
+#define VG_SW_LEN 12
+#endif
+void h_crc_sw_short(void) {
+    uint8_t buf[VG_SW_LEN + 8] __attribute__((aligned(8)));
+    uint32_t n, a;
+    __CPROVER_assume(a < 4 && n <= VG_SW_LEN);
+    uint32_t r = jls_crc32c(buf + a, n);
+    uint32_t s = 0xFFFFFFFFu;
+    for (uint32_t k = 0; k < VG_SW_LEN; ++k) { if (k < n) { s = vg_spec_byte(s, buf[a + k]); } }
+    __CPROVER_assert(r == (s ^ 0xFFFFFFFFu), "C18 bounded: table-driven jls_crc32c == reference on short buffers");
+    VG_REACH(crc_sw_short);
+}
+#endif
